@@ -39,6 +39,7 @@ type c15Case struct {
 	Unsafe     bool
 	MemMerge   bool
 	StatsInCB  bool // sub-workload: Stats()/MemoryUsed() from the event call-back
+	SegVer     int  // 2 = the ice v2 probe (reported separately)
 	RaceLogDir string
 }
 
@@ -73,7 +74,7 @@ func c15Child(in json.RawMessage) (interface{}, error) {
 		}
 		opMu.Unlock()
 	}
-	rg := newRig(rigOpts{Dir: cs.Dir, Merge: "happy", MemMerge: cs.MemMerge, Unsafe: cs.Unsafe, Seed: cs.Seed | 1})
+	rg := newRig(rigOpts{Dir: cs.Dir, Merge: "happy", MemMerge: cs.MemMerge, Unsafe: cs.Unsafe, Seed: cs.Seed | 1, SegVer: cs.SegVer})
 	if cs.StatsInCB {
 		cb := rg.Sched.EventCallback()
 		rg.Cfg = bx.WithIC(rg.Cfg, func(ic *index.Config) {
@@ -254,7 +255,8 @@ func blockedSignature(dump string) string {
 	return strings.Join(l, ";")
 }
 
-var frameRe = regexp.MustCompile(`(?m)^  ([^\s(]+)\(`)
+// a frame line is "  pkg/path.(*T).Method()" - the name itself may hold parentheses
+var frameRe = regexp.MustCompile(`(?m)^  (\S+)\(\)[ \t]*$`)
 
 // parseRaceReports splits race detector logs into reports and keys each by its outermost
 // bluge (or harness) entry points.
@@ -318,6 +320,10 @@ func runC15(c *vk.Ctx) {
 		cases = append(cases, c15Case{Seed: vk.SubSeed(c.Seed, fmt.Sprintf("c15-%d", i)), Dir: c.TempDir("c15-"), Writers: 2 + i%3, Readers: 1 + i%3, Procs: []int{1, 2, 4, 16}[i%4],
 			Unsafe: i%4 == 3, MemMerge: i%2 == 0, StatsInCB: i%5 == 4, RaceLogDir: logDir})
 	}
+	// the same workload on the second bundled segment format (two probe runs)
+	for i := 0; i < 2; i++ {
+		cases = append(cases, c15Case{Seed: vk.SubSeed(c.Seed, fmt.Sprintf("c15-v2-%d", i)), Dir: c.TempDir("c15-"), Writers: 2, Readers: 2, Procs: 16, MemMerge: i == 0, SegVer: 2, RaceLogDir: logDir})
+	}
 	results := vk.RunChildren(c.Scratch(), "c15run", cases, vk.ChildOpts{PerChild: 1, Parallel: runtime.NumCPU() / 2, CaseTimeout: 180 * time.Second,
 		Env: []string{"GORACE=halt_on_error=0 log_path=" + filepath.Join(logDir, "race")}})
 	for i, res := range results {
@@ -326,6 +332,20 @@ func runC15(c *vk.Ctx) {
 		c.Event("runs", 1)
 		if res.Hung {
 			c.Inconclusive("child-watchdog")
+			continue
+		}
+		if cs.SegVer == 2 {
+			// probe of the second bundled format: whatever goes wrong here is the shared stored-field buffer
+			// of ice v2 segments (the race reports below name it); reported under one key
+			c.Event("ice_v2_probe_runs", 1)
+			var out c15Result
+			bad := res.Faulted()
+			if !bad && res.Out != nil && json.Unmarshal(res.Out, &out) == nil {
+				bad = len(out.Errors) > 0 || out.ReopenDiff != "" || out.ReopenErr != ""
+			}
+			if bad {
+				c.Violate("ice-v2-concurrent-stored-field-access", fmt.Sprintf("ice v2 probe: %s %v %s", firstLines(res.Panic+res.Died, 12), out.Errors, out.ReopenDiff), cs)
+			}
 			continue
 		}
 		if res.Faulted() {
@@ -374,6 +394,9 @@ func runC15(c *vk.Ctx) {
 		key := "data-race:" + k
 		if !strings.Contains(reports[i], "blugelabs/bluge") {
 			key = "monitor-data-race:" + k
+		} else if strings.Contains(reports[i], "blugelabs/ice/v2.(*Segment).getDocStored") || strings.Contains(reports[i], "ice/v2.ZSTDDecompress") || strings.Contains(reports[i], "ice/v2.(*Segment).visitDocument") {
+			// ice v2 decompresses stored-field chunks into one buffer per segment
+			key = "data-race:ice-v2-stored-field-buffer"
 		} else if strings.Contains(reports[i], "index.(*Writer).Stats()") {
 			// the statistics accessor copies the counters struct non-atomically (reported separately)
 			key = "data-race:index.Writer.Stats"
